@@ -222,17 +222,28 @@ static std::string run_ring(long cap, long prods, long adds, long seed)
 }
 
 // ---- slot ---------------------------------------------------------------------------------------------------------
+// one producer and one taker per AtomicUniquePtr.  The taker never looks at the slot with a load before it exchanges
+// (a seq_cst load would synchronise on its own and hide the order of the exchange); three taker styles by (seed + pair) % 3:
+//   0  Swap(x) in a loop, read *x                         - and the producer sometimes runs Add's undo path (Swap back, re-publish)
+//   1  Reset() in a loop (the destructor is the access)    - Consume(n) without a callback
+//   2  Get(), read, Reset()                                - load-based hand-off (Peek consumers)
 static std::string run_slot(long pairs, long items, long seed)
 {
   long got_total = 0, bad_total = 0;
   std::vector<std::thread> ts;
   std::vector<std::unique_ptr<osc::AtomicUniquePtr<Payload>>> slots;
   std::vector<long> got(static_cast<size_t>(pairs), 0), bad(static_cast<size_t>(pairs), 0);
+  std::vector<std::unique_ptr<std::atomic<long>>> published;
   for (long k = 0; k < pairs; k++)
+  {
     slots.emplace_back(new osc::AtomicUniquePtr<Payload>());
+    published.emplace_back(new std::atomic<long>(0));
+  }
   for (long k = 0; k < pairs; k++)
   {
     osc::AtomicUniquePtr<Payload> *slot = slots[static_cast<size_t>(k)].get();
+    std::atomic<long> *pub              = published[static_cast<size_t>(k)].get();
+    const long style                    = (seed + k) % 3;
     ts.emplace_back([=] {
       Rng rng(static_cast<uint64_t>(seed) * 53 + static_cast<uint64_t>(k));
       for (long i = 0; i < items; i++)
@@ -245,7 +256,7 @@ static std::string run_slot(long pairs, long items, long seed)
         p->sum   = p->a + p->b;
         while (!slot->SwapIfNull(p))
           rng.jitter();
-        if (((seed + k) & 1) && (rng.next() & 3) == 0)
+        if (style == 0 && (rng.next() & 3) == 0)
         {
           // the undo path of Add: take back whatever is there, look at it, publish it again
           slot->Swap(p);
@@ -257,26 +268,36 @@ static std::string run_slot(long pairs, long items, long seed)
               rng.jitter();
           }
         }
+        pub->fetch_add(1, std::memory_order_relaxed);
       }
     });
     ts.emplace_back([=, &got, &bad] {
       Rng rng(static_cast<uint64_t>(seed) * 59 + static_cast<uint64_t>(k));
-      long n = 0;
-      long spins = 0;
-      while (n < items && spins < 200000000)
+      long n = 0, spins = 0;
+      if (style == 1)
       {
-        spins++;
-        if (slot->IsNull())
+        // blind Reset until everything published has been destroyed (the slot is null and the producer is done)
+        while (spins++ < 200000000)
         {
+          slot->Reset();
+          if (pub->load(std::memory_order_relaxed) == items && slot->IsNull())
+            break;
           rng.jitter();
-          continue;
         }
-        if (((seed + k) & 1) || (rng.next() & 1))
+        got[static_cast<size_t>(k)] = pub->load(std::memory_order_relaxed);
+        return;
+      }
+      while (n < items && spins++ < 200000000)
+      {
+        if (style == 0)
         {
           std::unique_ptr<Payload> x;
           slot->Swap(x);
           if (!x)
+          {
+            rng.jitter();
             continue;
+          }
           if (x->a + x->b != x->sum || x->owner != k)
             bad[static_cast<size_t>(k)]++;
           n++;
@@ -285,7 +306,10 @@ static std::string run_slot(long pairs, long items, long seed)
         {
           Payload *raw = slot->Get();
           if (raw == nullptr)
+          {
+            rng.jitter();
             continue;
+          }
           // only this thread takes elements out, so the object stays alive until the Reset below
           if (raw->a + raw->b != raw->sum || raw->owner != k)
             bad[static_cast<size_t>(k)]++;
